@@ -65,6 +65,54 @@ def Interval.seqFrom (I : Interval) (pre : List Msg) (acc : List Bool) : List Ms
 /-- The verdicts for a whole sequence. -/
 def Interval.seq (I : Interval) (msgs : List Msg) : List Bool := I.seqFrom [] [] msgs
 
+/-! ## what the documentation says the times of a message are
+
+Independent of the accessors: read off the members, as `messages/measurements.h` / `measurement_details.py`
+describe them.  `MeasurementDetails.p1_time` is "the P1 time corresponding with the measurement time of
+applicability, if available"; `measurement_time` is in the time base named by `measurement_time_source`, so it is
+a P1 time only when that is `P1_TIME`, and a system time only when it is `TIMESTAMPED_ON_RECEPTION`. -/
+
+/-- The P1 time of the message, if it has one. -/
+def Obj.docP1 : Obj → Option Int
+  | .raw => none
+  | .plain (some (some t)) _ => some t
+  | .plain _ _ => none
+  | .meas d =>
+    match d.p1Time with
+    | some t => some t
+    | none => if d.source = .p1Time then d.measurementTime else none
+
+/-- The members do not contradict each other: when a measurement names P1 time as the base of `measurement_time`
+and `details.p1_time` is filled in as well, the two are the same instant.  (Otherwise - two different P1 times, or
+a `measurement_time` declared to be P1 time but invalid next to a valid `details.p1_time` - the documentation does
+not say which of the two members is *the* P1 time of the message.) -/
+def Obj.unambiguous : Obj → Bool
+  | .meas d => if d.source = .p1Time then d.p1Time.isNone || d.p1Time = d.measurementTime else true
+  | _ => true
+
+/-- The system time of the message, if it has one: the `system_time_ns` member, or a measurement time that was
+stamped on reception. -/
+def Obj.docSys : Obj → SysTime
+  | .raw => .none
+  | .plain _ (some v) => .ns v
+  | .plain _ none => .none
+  | .meas d =>
+    match d.measurementTime with
+    | some t => if d.source = .timestampedOnReception then .ofTime t else .none
+    | none => .none
+
+/-- `None` and NaN both mean "no system time". -/
+def SysTime.value : SysTime → SysTime
+  | .nan => .none
+  | x => x
+
+/-- The message as the specification sees it: P1-timed with that time, or not P1-timed. -/
+def Obj.docMsg (o : Obj) : Msg :=
+  match o.docP1 with
+  | some t => .p1 t
+  | none => .noP1
+
+
 /-- P1 times of a sequence, in order. -/
 def p1Times (msgs : List Msg) : List Int := msgs.filterMap Msg.p1?
 
